@@ -252,22 +252,22 @@ ApSpareWrite(st, a, fr) ==
 ---------------------------------------------------------------------------
 (* drain / splice *)
 
-Rng(op, s, e, pre, repl, owned, path) ==
+Rng(op, s, e, pre, repl, owned, path, delta) ==
   [k |-> "range", op |-> op, s |-> s, e |-> e, f |-> 0, b |-> 0, pre |-> pre, repl |-> repl,
-   owned |-> owned, out |-> <<>>, path |-> path]
+   owned |-> owned, out |-> <<>>, path |-> path, delta |-> delta]   \* delta # 0: the replacement iterator misreports its length
 
 ApDrainBegin(st, a) ==
   LET V == st.v[a.v]
       r == IntoRange(Len(V.el), a.sk, a.sv, a.ek, a.ev, Cfg.maxu) IN
   IF ~r.ok THEN Out(st, "panic", <<>>, <<>>)
-  ELSE Out(SetV(st, a.v, [V EXCEPT !.h = Rng("drain", r.s, r.e, V.el, <<>>, TRUE, a.path)]), "ok", <<>>, <<>>)
+  ELSE Out(SetV(st, a.v, [V EXCEPT !.h = Rng("drain", r.s, r.e, V.el, <<>>, TRUE, a.path, 0)]), "ok", <<>>, <<>>)
 
 ApSpliceBegin(st, a, fr) ==
   LET V == st.v[a.v]
       r == IntoRange(Len(V.el), a.sk, a.sv, a.ek, a.ev, Cfg.maxu)
       repl == [j \in 1..a.n |-> <<fr[j], 0>>] IN
   IF ~r.ok THEN Rejected(st, a.src, repl)
-  ELSE Out(SetV(st, a.v, [V EXCEPT !.h = Rng("splice", r.s, r.e, V.el, repl, a.src # "raw", a.path)]), "ok", <<>>, <<>>)
+  ELSE Out(SetV(st, a.v, [V EXCEPT !.h = Rng("splice", r.s, r.e, V.el, repl, a.src # "raw", a.path, a.delta)]), "ok", <<>>, <<>>)
 
 Remaining(H) == H.e - H.s - H.f - H.b
 
@@ -296,7 +296,11 @@ ApRangeDrop(st, a) ==
       rest  == SubSeq(H.pre, H.s + H.f + 1, H.e - H.b)
       newel == VSplice(H.pre, H.s, H.e, H.repl)
       ok    == ~(Cfg.fixed /\ Len(newel) > V.cap)
-  IN IF ok
+  IN IF H.delta # 0
+     THEN (* C06: a replacement iterator that lies about its length must not corrupt the vector; what exactly is left is *)
+          (* not specified (A4): exploration continues from "the range removed, the replacement inserted"              *)
+          OutL(SetV(st, a.v, [V EXCEPT !.el = newel, !.h = AfterRange(H), !.cap = GrowCap(@, Len(newel))]), "ok", <<>>, Ids(rest), "liar")
+     ELSE IF ok
      THEN Out(SetV(st, a.v, [V EXCEPT !.el = newel, !.h = AfterRange(H), !.cap = GrowCap(@, Len(newel))]),
               "ok", <<>>, Ids(rest))
      ELSE (* A4: beyond a fixed capacity the call panics and the vector is "still valid"; policy for *)
